@@ -1965,6 +1965,19 @@ class TLSConnection(TLSRecordLayer):
 
             if cipherSuite in CipherSuite.dhAllSuites:
                 self.dhGroupSize = numBits(serverKeyExchange.dh_p)
+                # the size limits apply to Diffie-Hellman parameters too
+                if self.dhGroupSize < settings.minKeySize:
+                    for result in self._sendError(
+                            AlertDescription.insufficient_security,
+                            "Server's DH parameters too small: %d" %
+                            self.dhGroupSize):
+                        yield result
+                if self.dhGroupSize > settings.maxKeySize:
+                    for result in self._sendError(
+                            AlertDescription.handshake_failure,
+                            "Server's DH parameters too large: %d" %
+                            self.dhGroupSize):
+                        yield result
             if cipherSuite in CipherSuite.ecdhAllSuites:
                 self.ecdhCurve = serverKeyExchange.named_curve
 
